@@ -3,12 +3,18 @@ package checks
 import (
 	"encoding/json"
 	"fmt"
+	"os"
+	"path/filepath"
 	"sync"
 
 	"github.com/jotaen/klog/klog"
+	"github.com/jotaen/klog/klog/app"
+	"github.com/jotaen/klog/klog/app/cli"
+	cliutil "github.com/jotaen/klog/klog/app/cli/util"
 	"github.com/jotaen/klog/klog/parser"
 	"github.com/jotaen/klog/klog/parser/txt"
 
+	"klogverif/clidrv"
 	"klogverif/docgen"
 	"klogverif/fw"
 	sm "klogverif/specmodel"
@@ -259,6 +265,7 @@ func init() {
 			"specmodel.Parse (reference parser written from Specification.md; three-way cross-check against the generator's denotation on FA/FB)",
 			"don't-care zones (DESIGN §3.1): tab separators, blanks inside should-total parentheses, trailing blanks, integers > 10^9, invalid UTF-8 (a CR that is not part of CR LF is an ordinary non-blank character)",
 			"every document is parsed by the serial parser and by the parallel parser with 2 and 3 workers; each result is judged on its own",
+			"every 64th document also at file level through `klog total` with 1-3 input files (the text first, last or in the middle; equal base names in different directories): an invalid text makes the command fail, valid texts evaluate to all their records",
 			"Unicode tables are Go's (shared with klog)",
 		},
 		Units: func(t fw.Tier) int { return len(planSpans(famSizes(c01Families(t)), c01Chunk)) },
@@ -325,6 +332,56 @@ func c01Text(c *fw.Ctx, fam string, idx int, text string, den []sm.Record, hasDe
 			c.Mark(nil)
 		}
 		if !c01Judge(c, cs, suffix, text, ref, rs, bs, errs, panicked, pv, st) {
+			return
+		}
+	}
+	// file level, on a fixed stride: klog reads one or several input files; a file that breaks a MUST rule makes the
+	// command fail wherever it stands among the inputs, and valid files evaluate to their records
+	if idx%64 == 0 && ref.Verdict != sm.Unspec {
+		c01Files(c, cs, text, ref)
+	}
+}
+
+func c01Files(c *fw.Ctx, cs func() famCase, text string, ref sm.Result) {
+	dir := fw.Scratch()
+	home := clidrv.Home("home")
+	os.MkdirAll(filepath.Join(dir, "x"), 0755)
+	os.MkdirAll(filepath.Join(dir, "y"), 0755)
+	path := clidrv.WriteFile(filepath.Join(dir, "x"), "in.klg", text)
+	good := clidrv.WriteFile(filepath.Join(dir, "y"), "in.klg", "2000-01-01\n    1h\n\n2000-01-02\n    2h\n") // same base name, another directory
+	for _, order := range [][]string{{path}, {path, good}, {good, path}, {good, path, good}} {
+		var files []app.FileOrBookmarkName
+		for _, f := range order {
+			files = append(files, app.FileOrBookmarkName(f))
+		}
+		r := clidrv.Exec(home, clidrv.Opts{Now: fixedNow, NumCpus: 1 + len(order)%2}, &cli.Total{DecimalArgs: cliutil.DecimalArgs{Decimal: true}, NoStyleArgs: cliutil.NoStyleArgs{NoStyle: true}, WarnArgs: cliutil.WarnArgs{NoWarn: true}, InputFilesArgs: cliutil.InputFilesArgs{File: files}})
+		c.Count("file_level_runs", 1)
+		if r.Panicked {
+			c.Violation("panic:files:"+fw.PanicSite(r.Stack), cs(), fmt.Sprintf("`klog total` on %d input files panicked: %v\n%s", len(order), r.PanicVal, r.Stack))
+			return
+		}
+		if ref.Verdict == sm.Invalid {
+			if r.Code == 0 {
+				c.Violation("invalid-file-accepted", cs(), fmt.Sprintf("the text breaks a MUST rule (line %d: %s) but `klog total` with it as input %d of %d exits 0 and prints %q", ref.Line, ref.Rule, 1+indexOf(order, path), len(order), r.Stdout))
+				return
+			}
+			continue
+		}
+		if ref.ZsBlank {
+			continue // known finding of the parser legs
+		}
+		n, want := len(ref.Records), sm.Total(ref.Records)
+		for _, f := range order {
+			if f == good {
+				n, want = n+2, want+180
+			}
+		}
+		if n == 0 {
+			continue
+		}
+		exp := fmt.Sprintf("Total: %d\n(In %d record%s)\n", want, n, map[bool]string{true: "", false: "s"}[n == 1])
+		if r.Code != 0 || r.Stdout != exp {
+			c.Violation("valid-files-total", cs(), fmt.Sprintf("`klog total --decimal` on %d input files (the text as number %d) printed (exit %d %s)\n%q\nexpected\n%q", len(order), 1+indexOf(order, path), r.Code, r.Err, r.Stdout, exp))
 			return
 		}
 	}
